@@ -249,8 +249,38 @@ func pointsCases(r *rand.Rand, sh *Sharder, doc *CasesDoc, id *int, n int, repla
 	ectx := func(plan *gateway.QueryPlan) *gateway.ExecutionContext {
 		return gateway.VerifExecutionContext(context.Background(), quietLogger{}, plan, nil)
 	}
-	for i := 0; i < n; i++ {
+	// a fixed corpus first: the boundary shapes of the value at the last (and at an inner) target
+	corpus := []*ptCase{}
+	if replay == nil {
+		leaf := &ptField{Name: "n", Alias: "n"}
+		obj := func(id string) map[string]interface{} { return map[string]interface{}{"id": id, "n": "s"} }
+		shapes := []interface{}{
+			[]interface{}{}, []interface{}{obj("1")}, []interface{}{nil}, []interface{}{"x"}, []interface{}{obj("1"), obj("2")},
+			obj("1"), map[string]interface{}{"n": "no id"}, map[string]interface{}{}, nil, "scalar", float64(3), true,
+			[]interface{}{map[string]interface{}{"n": "no id"}}, []interface{}{obj("a#b"), nil, obj("")},
+		}
+		for _, isList := range []bool{false, true} {
+			for _, nonNull := range []bool{false, true} {
+				for _, v := range shapes {
+					// the value directly under the last target
+					corpus = append(corpus, &ptCase{Shaped: false,
+						Sels:    []*ptField{{Name: "user", Alias: "user", List: isList, NonNull: nonNull, Sub: []*ptField{leaf}}, leaf},
+						Data:    map[string]interface{}{"id": "r", "user": v},
+						Targets: []string{"user"}, Value: map[string]interface{}{"n": "new"}})
+					// and one level up, under a well-formed object
+					corpus = append(corpus, &ptCase{Shaped: false,
+						Sels: []*ptField{{Name: "a", Alias: "a", Sub: []*ptField{{Name: "user", Alias: "user", List: isList, NonNull: nonNull, Sub: []*ptField{leaf}}, leaf}}},
+						Data: map[string]interface{}{"id": "r", "a": map[string]interface{}{"id": "a1", "user": v}}, Targets: []string{"a", "user"},
+						Value: map[string]interface{}{"n": "new"}})
+				}
+			}
+		}
+	}
+	for i := 0; i < n+len(corpus); i++ {
 		pc := replay
+		if pc == nil && i < len(corpus) {
+			pc = corpus[i]
+		}
 		if pc == nil {
 			pc = &ptCase{Shaped: true}
 			if i%5 == 4 {
@@ -312,7 +342,7 @@ func pointsCases(r *rand.Rand, sh *Sharder, doc *CasesDoc, id *int, n int, repla
 		doc.Dist["points:found:"+bucket(len(points))]++
 
 		// extract and insert at (up to three of) the found points, and at a made-up one
-		if replay == nil && len(points) > 0 && r.Intn(2) == 0 {
+		if replay == nil && i >= len(corpus) && len(points) > 0 && r.Intn(2) == 0 {
 			// a value shaped like what the first point already holds: deep merge of objects and of equally long lists
 			if cur, err := gateway.VerifExtractValue(ectx(nil), deepCopy(pc.Data).(map[string]interface{}), points[0]); err == nil {
 				if obj, ok := cur.(map[string]interface{}); ok {
